@@ -118,8 +118,88 @@ theorem gen_cache_before_files :
 /-- `writeSnapshotAndCommit` installs the snapshot's file before it clears the snapshot -/
 theorem gen_install_before_clear : Gen.C19.installBeforeClear = true := by decide
 
+/-- `validateSeriesAndFields` compares the type of a field that appeared since validation
+(the `recheck = true` of the race model below) -/
+theorem gen_type_rechecked : Gen.C19.typeRecheckedAtSecondLook = true := by decide
+
 /-! ### Non-vacuity -/
 
 example : (run {} [.write 1, .snapBegin, .write 2, .snapInstall, .snapClear]).files = [1] := by decide
+
+end InfluxVerif.Sched
+
+namespace InfluxVerif.Sched
+
+/-! ### one type under a race -/
+
+/-- every writer that got past the checks, and every stored value, has the field's type -/
+def FInv (s : FSt) : Prop :=
+  (∀ w ∈ s.ws, (w.pc = .ready ∨ w.pc = .done) → s.field = some w.ty) ∧
+  (∀ t ∈ s.stored, s.field = some t)
+
+theorem wstep_spec (field : Option Ty) (w : Writer) :
+    let r := wstep true field w
+    -- the field, once set, never changes; it is only ever set to the writer's own type
+    (∀ t, field = some t → r.1 = some t) ∧
+    (field = none → r.1 = none ∨ r.1 = some w.ty) ∧
+    r.2.2.ty = w.ty ∧
+    -- a writer is ready/done afterwards only if the field has its type
+    ((r.2.2.pc = .ready ∨ r.2.2.pc = .done) → (w.pc = .ready ∨ w.pc = .done) ∨ r.1 = some w.ty) ∧
+    -- a value is stored only by a writer that was ready
+    (∀ v, r.2.1 = some v → v = w.ty ∧ w.pc = .ready) := by
+  cases hpc : w.pc <;> cases field <;> simp [wstep, hpc] <;> try (split <;> simp_all)
+
+/-- **Conflicting concurrent first writes leave the field with one type and only values of
+that type, under every schedule and any number of writers** (the repaired code). -/
+theorem one_type_under_race (ws : List Writer) (hstart : ∀ w ∈ ws, w.pc = .start) (sched : List Nat) :
+    FInv (frun true { ws := ws } sched) := by
+  suffices h : ∀ s, FInv s → FInv (frun true s sched) by
+    apply h
+    refine ⟨?_, by simp⟩
+    intro w hw hp
+    have := hstart w hw
+    rcases hp with hp | hp <;> simp [this] at hp
+  induction sched with
+  | nil => exact fun s hs => hs
+  | cons i rest ih =>
+    intro s hs
+    apply ih
+    unfold fstep
+    cases hget : s.ws[i]? with
+    | none => simpa [hget] using hs
+    | some w =>
+      simp only
+      have hw : w ∈ s.ws := List.mem_of_getElem? hget
+      obtain ⟨hkeep, hnew, hty, hready, hstore⟩ := wstep_spec s.field w
+      obtain ⟨h1, h2⟩ := hs
+      -- the field after the step, seen from the field before
+      have hfield : ∀ t, s.field = some t → (wstep true s.field w).1 = some t := hkeep
+      constructor
+      · intro x hx hp
+        rcases List.mem_or_eq_of_mem_set hx with hx' | rfl
+        · exact hfield _ (h1 x hx' hp)
+        · rw [hty]
+          rcases hready hp with hold | hnewf
+          · exact hfield _ (h1 w hw hold)
+          · exact hnewf
+      · intro t ht
+        cases hv : (wstep true s.field w).2.1 with
+        | none =>
+          rw [hv] at ht
+          exact hfield _ (h2 t ht)
+        | some v =>
+          rw [hv] at ht
+          simp only [List.mem_cons] at ht
+          obtain ⟨hvty, hwr⟩ := hstore v hv
+          rcases ht with rfl | ht
+          · rw [hvty]; exact hfield _ (h1 w hw (Or.inl hwr))
+          · exact hfield _ (h2 t ht)
+
+/-- **The pinned code's window**: when the second look only tests existence, the schedule
+"A validates; B validates, looks again, creates the field; A looks again; A stores" leaves a
+value of A's type under a field of B's type. -/
+theorem existence_only_check_mixes_types :
+    let s := frun false { ws := [{ ty := 1 }, { ty := 2 }] } [0, 1, 1, 1, 0, 0]
+    s.field = some 2 ∧ 1 ∈ s.stored := by decide
 
 end InfluxVerif.Sched
